@@ -917,7 +917,14 @@ func (r *vfC18Replayer) compare(exp map[string]any) []vfC18Issue {
 		gotNext = s.mg.nextConfig.Start()
 	}
 	hasLast := s.mg.lastConfig != nil
+	var gotLast time.Time
+	if hasLast {
+		gotLast = s.mg.lastConfig.Start()
+	}
 	s.mg.mx.RUnlock()
+	if hl, _ := exp["haslast"].(bool); hl && hasLast && !gotLast.Equal(r.sc.real(gi("lastnb"))) {
+		is = append(is, vfC18Issue{"L2:last-window", "lastConfig starts at another instant than the model's previous bucket", r.sc.real(gi("lastnb")).UTC().String(), gotLast.UTC().String()})
+	}
 	if !gotNext.Equal(nnb) {
 		is = append(is, vfC18Issue{"L2:next-window", "nextConfig starts at another instant than the model's next bucket", nnb.UTC().String(), gotNext.UTC().String()})
 	}
